@@ -136,12 +136,12 @@ theorem optimizeRandom_notLower (ops : SpecOps σ K) (ev) (hp : PureEval ops ev)
     exact (hres u rfl).2
 
 /-- **what C09 gives the solver**: on the local problem built for the window `[a, b)` around `s`
-    (objectives with a non-zero boost, localized and re-initialised), a candidate `t` that differs
+    (objectives with a non-zero boost, localized and re-initialised; `n` is the problem's length), a candidate `t` that differs
     from `s` only inside the window and whose *local* total is not lower has a *global* total that is
     not lower.  Proved from the per-objective score identity over ℚ below (`totalFaithful_of_scoreFaithful`). -/
-def TotalFaithful (ops : SpecOps σ K) (ev : σ → Seq → Eval K) (lz : σ → Loc → Seq → Option σ)
+def TotalFaithful (n : Nat) (ops : SpecOps σ K) (ev : σ → Seq → Eval K) (lz : σ → Loc → Seq → Option σ)
     (ini : σ → Seq → Role → σ) (F : Frame σ) : Prop :=
-  ∀ (a b : Nat) (s t : Seq) (LF : Frame σ), C02.AgreeOut a b s t →
+  ∀ (a b : Nat) (s t : Seq) (LF : Frame σ), s.length = n → C02.AgreeOut a b s t →
     LF.objectives = C02.localObjectives ops lz ini F a b s →
     Score.lt (total ops ev LF t) (total ops ev LF s) = false →
     Score.lt (total ops ev F t) (total ops ev F s) = false
@@ -150,7 +150,7 @@ def TotalFaithful (ops : SpecOps σ K) (ev : σ → Seq → Eval K) (lz : σ →
 theorem optimizeLocation_notLower (ops : SpecOps σ K) (ev lz ini) (sett : Settings) (F : Frame σ) (n : Nat)
     (hp : PureEval ops ev) (hq : C02.PureObj ops lz ini)
     (hfit : ∀ a b : Int, C15.ChoicesFit n (F.space.localized a b).multichoices)
-    (hT : TotalFaithful ops ev lz ini F) (location : Loc) (s : Seq) (st : St σ K) (hn : s.length = n) :
+    (hT : TotalFaithful n ops ev lz ini F) (location : Loc) (s : Seq) (st : St σ K) (hn : s.length = n) :
     Score.lt (total ops ev F (optimizeLocation ops sett F location s st).2.1) (total ops ev F s) = false ∧
     (optimizeLocation ops sett F location s st).2.1.length = n := by
   rcases C02.optimizeLocation_cases ops lz ini hq sett F location s st with h | ⟨a, b, LF, u, ls, st3, st5, hspan, hLFc, hLFo, hLFs, hres, hout⟩
@@ -164,7 +164,7 @@ theorem optimizeLocation_notLower (ops : SpecOps σ K) (ev lz ini) (sett : Setti
       split at hres
       · exact optimizeExhaustive_notLower ops ev hp LF s st3 u ls st5 hres
       · exact optimizeRandom_notLower ops ev hp sett LF s st3 u ls st5 hres
-    exact ⟨hT a b s ls LF key hLFo hloc, key.1.trans hn⟩
+    exact ⟨hT a b s ls LF hn key hLFo hloc, key.1.trans hn⟩
 
 /-- **C03 for the whole problem.**  For pure total specifications whose localized objectives are
     faithful (C09) on a well-formed mutation space: `optimize()` never ends on a sequence whose
@@ -173,7 +173,7 @@ theorem optimizeLocation_notLower (ops : SpecOps σ K) (ev lz ini) (sett : Setti
 theorem optimize_never_lowers (ops : SpecOps σ K) (ev lz ini) (sett : Settings) (F : Frame σ) (n : Nat)
     (hp : PureEval ops ev) (hq : C02.PureObj ops lz ini)
     (hfit : ∀ a b : Int, C15.ChoicesFit n (F.space.localized a b).multichoices)
-    (hT : TotalFaithful ops ev lz ini F) (s : Seq) (st : St σ K) (hn : s.length = n) :
+    (hT : TotalFaithful n ops ev lz ini F) (s : Seq) (st : St σ K) (hn : s.length = n) :
     Score.lt (total ops ev F (optimize ops sett F s st).2.1) (total ops ev F s) = false := by
   -- every level of the solver keeps "not lower than `s0`" and the length
   have hlocs : ∀ (locs : List Loc) (s0 s : Seq) (st : St σ K), s.length = n →
